@@ -48,6 +48,9 @@ pub fn wrap(key: &[u8], data: &[u8]) -> Result<Vec<u8>, Error> {
 /// AES Key Unwrap
 /// As defined in RFC 3394.
 pub fn unwrap(key: &[u8], data: &[u8]) -> Result<Zeroizing<Vec<u8>>, Error> {
+    if data.len() < IV_LEN {
+        return Err(aes_kw::Error::InvalidDataSize).context(WrapSnafu);
+    }
     let len = data.len() - IV_LEN;
     let mut out = Zeroizing::new(vec![0u8; len]);
 
